@@ -102,8 +102,11 @@ RidgeInit == /\ Mode = "ridges"
 \* shapes: the maps belong to the rotated image
 \* ... whose size need not be a multiple of the down-sampling factor (cfg.rm: page with remainders ds-1 and ds \div 2);
 \* un-rotation must use the image's real size, not map size x ds
-RotH == MapH * cfg.ds + (IF cfg.rm THEN cfg.ds - 1 ELSE 0)
-RotW == MapW * cfg.ds + (IF cfg.rm THEN cfg.ds \div 2 ELSE 0)
+\* (a configuration may carry its own map size - fields mh, mw: the sampled tall / wide pages of LayoutDecode_Trace, kind "scale")
+MapHOf == IF "mh" \in DOMAIN cfg THEN cfg.mh ELSE MapH
+MapWOf == IF "mw" \in DOMAIN cfg THEN cfg.mw ELSE MapW
+RotH == MapHOf * cfg.ds + (IF cfg.rm THEN cfg.ds - 1 ELSE 0)
+RotW == MapWOf * cfg.ds + (IF cfg.rm THEN cfg.ds \div 2 ELSE 0)
 OrigH == IF cfg.k \in {1, 3} THEN RotW ELSE RotH
 OrigW == IF cfg.k \in {1, 3} THEN RotH ELSE RotW
 
